@@ -39,7 +39,7 @@ func PartialHelper(name string, data map[string]interface{}, help HelperContext)
 		return "", err
 	}
 
-	if part, err = Render(part, help.Context); err != nil {
+	if part, err = help.Render(part); err != nil {
 		return "", err
 	}
 
